@@ -172,7 +172,7 @@ theorem pubLoop_spec (n : Nat) (ch : Chan) (hch : ch ≠ .log) (items : List Lis
       obtain ⟨w', h1, h2, h3⟩ := ih hr { w1 with j := w1.j ++ es } hq (fails ++ [l.id])
       refine ⟨w', ?_, h2, ?_⟩
       · have : l.acts = [] := hl.1
-        simp only [pubLoop, this, runActs, hra, logFailure, hch, if_false]
+        simp only [pubLoop, this, runActs, hra, raised, logFailure, hch, if_false]
         rw [show ({ w with j := w.j ++ [⟨ch, l.id, w.bus.state, l.prio⟩] } : W) = w1 from rfl, hlog]
         simp only
         rw [h1]; simp [raisers, hra, List.append_assoc]
@@ -282,7 +282,7 @@ theorem pubLoop_simple (n : Nat) (ch : Chan) (hch : ch ≠ .log) (items : List L
       have hq2 : LogQuiet w2.bus := by rw [hx.1]; exact hq
       obtain ⟨w', h1, h2⟩ := ih hr w2 hq2 (fails ++ [l.id])
       refine ⟨w', ?_, ?_⟩
-      · simp only [pubLoop, hl, runActs, hout, loopSpec, logFailure, hch, if_false]
+      · simp only [pubLoop, hl, runActs, hout, loopSpec, raised, logFailure, hch, if_false]
         rw [show ({ w with j := w.j ++ [⟨ch, l.id, w.bus.state, l.prio⟩] } : W) = w1 from rfl, hlog]
         exact h1
       · have := (hw1.trans hx).trans h2
@@ -757,6 +757,155 @@ theorem sysexit_code_fixup (n : Nat) (ch : Chan) (hch : ch ≠ .log) (pre rest :
   rw [h1, loopSpec_sysexit pre rest l c (fun x hx => (hpre x hx).2) hc]
   simp only [fixCode, List.nil_append]
   by_cases h0 : c = 0 <;> cases hr : raisers pre <;> simp [h0]
+
+/-! ### arbitrary (re-entrant) listeners: the state a listener observes -/
+
+/-- effect summary valid for ANY listener scripts: the bus state is untouched and every
+    journalled invocation (at any re-entrancy depth) carries the state at entry -/
+def StateStable (w w' : W) : Prop :=
+  w'.bus.state = w.bus.state ∧ ∃ es, w'.j = w.j ++ es ∧ ∀ e ∈ es, e.st = w.bus.state
+
+theorem StateStable.refl (w : W) : StateStable w w := ⟨rfl, [], by simp, by simp⟩
+
+theorem StateStable.trans {a b c : W} (h1 : StateStable a b) (h2 : StateStable b c) :
+    StateStable a c := by
+  obtain ⟨s1, e1, j1, m1⟩ := h1
+  obtain ⟨s2, e2, j2, m2⟩ := h2
+  refine ⟨s2.trans s1, e1 ++ e2, by rw [j2, j1, List.append_assoc], ?_⟩
+  intro e he
+  rcases List.mem_append.mp he with h | h
+  · exact m1 e h
+  · rw [← s1]; exact m2 e h
+
+def PubStable (pub : Pub) : Prop := ∀ w ch, StateStable w (pub w ch).1
+
+theorem subscribe_state (b : Bus) (ch : Chan) (l : Listener) : (subscribe b ch l).state = b.state := rfl
+
+theorem unsubscribe_state (b : Bus) (ch : Chan) (id : Nat) : (unsubscribe b ch id).state = b.state := by
+  unfold unsubscribe; split
+  · rfl
+  · split <;> rfl
+
+theorem runActs_stable (pub : Pub) (hp : PubStable pub) (acts : List Act) (w : W) :
+    StateStable w (runActs pub w acts).1 := by
+  induction acts generalizing w with
+  | nil => exact StateStable.refl w
+  | cons a rest ih =>
+    cases a with
+    | sub ch id prio out =>
+      simp only [runActs]
+      exact StateStable.trans (b := { w with bus := subscribe w.bus ch ⟨id, prio, [], out⟩ })
+        ⟨subscribe_state _ _ _, [], by simp, by simp⟩ (ih _)
+    | unsub ch id =>
+      simp only [runActs]
+      exact StateStable.trans (b := { w with bus := unsubscribe w.bus ch id })
+        ⟨unsubscribe_state _ _ _, [], by simp, by simp⟩ (ih _)
+    | pub ch =>
+      simp only [runActs]
+      have h := hp w ch
+      generalize pub w ch = r at h
+      obtain ⟨w', o⟩ := r
+      cases o with
+      | none => exact h.trans (ih w')
+      | some e => exact h
+
+theorem pubLoop_stable (pub : Pub) (hp : PubStable pub) (ch : Chan) (items : List Listener)
+    (w : W) (fails : List Nat) : StateStable w (pubLoop pub ch items w fails).1 := by
+  induction items generalizing w fails with
+  | nil => exact StateStable.refl w
+  | cons l rest ih =>
+    have h1 : StateStable w { w with j := w.j ++ [⟨ch, l.id, w.bus.state, l.prio⟩] } :=
+      ⟨rfl, [_], rfl, by simp⟩
+    have h2 := runActs_stable pub hp l.acts { w with j := w.j ++ [⟨ch, l.id, w.bus.state, l.prio⟩] }
+    simp only [pubLoop]
+    generalize runActs pub { w with j := w.j ++ [⟨ch, l.id, w.bus.state, l.prio⟩] } l.acts = r at h2
+    obtain ⟨w2, o⟩ := r
+    have h12 := h1.trans h2
+    have hraise : StateStable w
+        (raised pub ch w2 (fun w3 => pubLoop pub ch rest w3 (fails ++ [l.id]))).1 := by
+      unfold raised logFailure
+      by_cases hlog : ch = .log
+      · rw [if_pos hlog]
+        exact h12.trans (ih w2 _)
+      · rw [if_neg hlog]
+        have h3 := hp w2 .log
+        generalize pub w2 .log = r3 at h3
+        obtain ⟨w3, o3⟩ := r3
+        cases o3 with
+        | none => exact (h12.trans h3).trans (ih w3 _)
+        | some e => exact h12.trans h3
+    cases o with
+    | none =>
+      cases hout : l.out with
+      | ok => simpa [hout] using h12.trans (ih w2 fails)
+      | raise => simpa [hout] using hraise
+      | kbdInt => simpa [hout] using h12
+      | sysExit c => simpa [hout] using h12
+    | some e =>
+      cases e with
+      | chanFail ids => simpa using hraise
+      | sysExit c => simpa using h12
+      | kbdInt => simpa using h12
+      | outOfFuel => simpa using h12
+
+/-- **C18** — for ARBITRARY listener scripts (re-entrant subscribe / unsubscribe / publish,
+    any outcomes, failing log listeners, any fuel): `publish` never changes the bus state and
+    every listener it invokes, directly or re-entrantly, is journalled in the state at entry. -/
+theorem publish_state_stable_general (fuel : Nat) : PubStable (publish fuel) := by
+  induction fuel with
+  | zero => intro w ch; exact StateStable.refl w
+  | succ n ih =>
+    intro w ch
+    rw [publish_succ]
+    split
+    · exact StateStable.refl w
+    · exact pubLoop_stable _ ih ch _ w []
+
+/-- **C18** — for ARBITRARY listener scripts (re-entrant, failing log listeners, any fuel):
+    everything `stop()` invokes sees STOPPING or (the closing log call) STOPPED, and `stop()` leaves
+    the bus STOPPED, or STOPPING when it raised — never any other state. -/
+theorem stop_general (fuel : Nat) (w : W) :
+    ((stop fuel w).1.bus.state = .stopping ∨ (stop fuel w).1.bus.state = .stopped) ∧
+    ∃ es, (stop fuel w).1.j = w.j ++ es ∧ ∀ e ∈ es, e.st = .stopping ∨ e.st = .stopped := by
+  have key : ∀ (w0 : W) (c : Chan), StateStable w0 (publish fuel w0 c).1 :=
+    fun w0 c => publish_state_stable_general fuel w0 c
+  unfold stop log
+  dsimp only
+  have h1 := key (setState w .stopping) .log
+  generalize publish fuel (setState w .stopping) .log = r1 at h1
+  obtain ⟨w1, o1⟩ := r1
+  obtain ⟨s1, e1, j1, m1⟩ := h1
+  simp only [setState_state, setState_j] at s1 j1 m1
+  cases o1 with
+  | some e => exact ⟨Or.inl s1, e1, j1, fun e he => Or.inl (m1 e he)⟩
+  | none =>
+    dsimp only
+    have h2 := key w1 .stop
+    generalize publish fuel w1 .stop = r2 at h2 ⊢
+    obtain ⟨w2, o2⟩ := r2
+    obtain ⟨s2, e2, j2, m2⟩ := h2
+    rw [s1] at s2 m2
+    cases o2 with
+    | some e =>
+      dsimp only at s2 j2 ⊢
+      refine ⟨Or.inl s2, e1 ++ e2, by simp [j2, j1], ?_⟩
+      intro e he; rcases List.mem_append.mp he with h | h
+      · exact Or.inl (m1 e h)
+      · exact Or.inl (m2 e h)
+    | none =>
+      dsimp only at s2 j2 ⊢
+      have h3 := key (setState w2 .stopped) .log
+      generalize publish fuel (setState w2 .stopped) .log = r3 at h3 ⊢
+      obtain ⟨w3, o3⟩ := r3
+      obtain ⟨s3, e3, j3, m3⟩ := h3
+      simp only [setState_state, setState_j] at s3 j3 m3
+      refine ⟨Or.inr s3, e1 ++ e2 ++ e3, by simp [j3, j2, j1], ?_⟩
+      intro e he
+      rcases List.mem_append.mp he with h | h
+      · rcases List.mem_append.mp h with h | h
+        · exact Or.inl (m1 e h)
+        · exact Or.inl (m2 e h)
+      · exact Or.inr (m3 e h)
 
 /-! ### statements that are false on the unchanged tree (known findings F19, F22) -/
 
